@@ -22,6 +22,13 @@ VF_DETECT(has_initialStates, std::declval<T&>().m_initialStates)
 VF_DETECT(has_currentStates, std::declval<T&>().m_currentStates)
 VF_DETECT(has_last_active, std::declval<T&>().m_last_active_state_ids)
 VF_DETECT(has_cur_seq, std::declval<T&>().m_deferred_events_queue.m_cur_seq)
+VF_DETECT(has_marked, std::declval<T&>().marked_for_deletion())
+// backmp11 keeps processed pool entries as tombstones until it compacts the pool; without the accessor that tells them apart
+// every entry counts as pending (reported: comparisons of pending sets are skipped for backmp11 then)
+template <class Occ> inline bool is_marked(Occ& occ) {
+    if constexpr (has_marked<Occ>::value) return occ.marked_for_deletion();
+    else { cap_missing("pool_tombstones"); return false; }
+}
 template <class SM> inline std::string evproc_str(SM& m) {
     if constexpr (has_evproc<SM>::value) return std::to_string((int)m.m_event_processing);
     else { cap_missing("event_processing_flag"); return "0"; }
@@ -161,12 +168,12 @@ template <class SM> inline std::string snap_machine(SM& m, int mid) {
     if constexpr (has_running<SM>::value) s += ":r=" + std::to_string((int)m.m_running); else { cap_missing("running_flag"); s += ":r=?"; }
     auto& pool = m.get_event_pool();
     int live = 0, marked = 0;
-    for (auto& e : pool.events) { if ((*e).marked_for_deletion()) marked++; else live++; }
+    for (auto& e : pool.events) { if (is_marked(*e)) marked++; else live++; }
     s += ":q=" + std::to_string(live) + ":k=" + std::to_string(marked);
     return s;
 }
 template <class SM> inline int raw_seq(SM& m) { return (int)m.get_event_pool().cur_seq_cnt; }
-template <class SM> inline int own_queue_size(SM& m) { int n = 0; for (auto& e : m.get_event_pool().events) if (!(*e).marked_for_deletion()) n++; return n; }
+template <class SM> inline int own_queue_size(SM& m) { int n = 0; for (auto& e : m.get_event_pool().events) if (!is_marked(*e)) n++; return n; }
 
 // serials of pool entries that were already processed but not yet erased (lazy deletion)
 template <class SM, class E> inline void collect_marked(SM& m, std::set<int>& out) {
@@ -175,7 +182,7 @@ template <class SM, class E> inline void collect_marked(SM& m, std::set<int>& ou
         event_occurrence& occ = *pe;
         if (occ.m_process_fn == &deferred_event<E>::template try_process<SM>) {
             auto& d = static_cast<deferred_event<E>&>(occ);
-            if (occ.marked_for_deletion()) out.insert(evinfo<E>::serial(d.m_event));
+            if (is_marked(occ)) out.insert(evinfo<E>::serial(d.m_event));
         }
     }
 }
@@ -187,7 +194,7 @@ template <class SM, class E> inline void scan_pool(SM& m, std::vector<QItem>& q,
         event_occurrence& occ = *pe;
         if (!done[i] && occ.m_process_fn == &deferred_event<E>::template try_process<SM>) {
             auto& d = static_cast<deferred_event<E>&>(occ);
-            q[i] = QItem{occ.marked_for_deletion() ? -2 : evinfo<E>::eid(d.m_event) % 1000, evinfo<E>::serial(d.m_event), false};
+            q[i] = QItem{is_marked(occ) ? -2 : evinfo<E>::eid(d.m_event) % 1000, evinfo<E>::serial(d.m_event), false};
             done[i] = true;
         }
         ++i;
